@@ -69,6 +69,10 @@ def scenario_source(kind, name):
             yaml.safe_dump({"base_scenario": "base.yaml", "schedule": sched}, f)
         meta = dict(meta, name=f"genfolder-{name['seed']}", schedule=[tuple(v) for v in sched.values()])
         return d, meta
+    if kind == "fullmap":  # a shipped scenario whose defender may additionally do everything to everything
+        cfg, meta = scenario_source("shipped", name["file"])
+        cfg = gen.full_action_map(cfg, name.get("seed", 0), name.get("max_actions", 220))
+        return cfg, dict(meta, name=f"{name['file']}+fullmap")
     if kind == "variant":  # a shipped / generated scenario whose scripted-agent settings are re-drawn from their documented ranges
         import random as _random
 
@@ -152,6 +156,62 @@ class Policy:
             if up and r < 0.5:
                 return self.rnd.choice(up)
             return 0 if r < 0.92 else self.rnd.randrange(n)
+        if k == "collide":
+            # act on exactly the component (node + application / service / folder / file) another agent acted on in its last turn: scripted
+            # agents repeat themselves, so the two actions tend to meet on the same component in the SAME step (the defender should act last)
+            amap = env.agent.action_manager.action_map
+            hot = set()
+            for ag in env.game.agents.values():
+                if ag is env.agent:
+                    continue
+                for h in ag.history[-2:]:
+                    p_ = h.parameters if isinstance(h.parameters, dict) else {}
+                    n_ = p_.get("node_name") or p_.get("source_node")
+                    if n_:
+                        hot.add((n_, p_.get("application_name") or p_.get("service_name") or p_.get("folder_name")))
+                        hot.add((n_, None))
+            same_comp = [i for i, (a, o) in amap.items() if isinstance(o, dict) and o.get("node_name") and
+                         (o["node_name"], o.get("application_name") or o.get("service_name") or o.get("folder_name")) in hot and
+                         (o.get("application_name") or o.get("service_name") or o.get("folder_name"))]
+            same_node = [i for i, (a, o) in amap.items() if isinstance(o, dict) and (o.get("node_name"), None) in hot]
+            r = self.rnd.random()
+            if same_comp and r < 0.55:
+                return self.rnd.choice(same_comp)
+            if same_node and r < 0.75:
+                return self.rnd.choice(same_node)
+            return self.rnd.randrange(n) if r < 0.9 else 0
+        if k == "scans":
+            # two timed completions meeting on one host: damage a file, start a whole-node scan, and start a scan (or restore) of the file's
+            # folder so that it is still running when the node scan completes (offsets jittered around that point); then the same the other
+            # way round. Between the scripted actions the defender idles, so that nothing else explains what the observation shows.
+            if not getattr(self, "_plan", None):
+                amap = env.agent.action_manager.action_map
+                net = env.game.simulation.network
+                by = {}
+                for i_, (a, o) in amap.items():
+                    if isinstance(o, dict) and o.get("node_name"):
+                        by.setdefault(o["node_name"], {}).setdefault(a, []).append(i_)
+                hosts_ = [h for h, d in by.items() if "node-os-scan" in d and ("node-folder-scan" in d or "node-folder-restore" in d) and net.get_node_by_hostname(h) is not None]
+                if not hosts_:
+                    self._plan = [None] * 5
+                else:
+                    h = self.rnd.choice(hosts_)
+                    d = by[h]
+                    node = net.get_node_by_hostname(h)
+                    D = int(getattr(node.config, "node_scan_duration", 10) or 0)
+                    fverb = self.rnd.choice([v for v in ("node-folder-scan", "node-folder-restore") if v in d])
+                    fi = self.rnd.choice(d[fverb])
+                    fname = amap[fi][1].get("folder_name")
+                    fo = node.file_system.get_folder(fname) if fname else None
+                    dd = int(getattr(fo, "scan_duration", 3) or 0) if fo is not None else 3
+                    harm = [x for v in ("node-file-corrupt", "node-file-delete") for x in d.get(v, []) if amap[x][1].get("folder_name") == fname]
+                    gap = max(0, D - dd + self.rnd.randint(-1, dd))
+                    plan = ([self.rnd.choice(harm)] if harm and self.rnd.random() < 0.8 else []) + [d["node-os-scan"][0]] + [None] * gap + [fi] + [None] * (dd + 2)
+                    if self.rnd.random() < 0.3:  # the other order: folder operation first, node scan started while it runs
+                        plan = ([self.rnd.choice(harm)] if harm else []) + [fi] + [None] * self.rnd.randint(0, max(0, dd - 1)) + [d["node-os-scan"][0]] + [None] * (D + 2)
+                    self._plan = plan
+            nxt = self._plan.pop(0)
+            return 0 if nxt is None else nxt
         if k == "nic":
             # toggle interfaces / ports while traffic is flowing: a NIC that carried traffic earlier in the SAME step and is then disabled
             amap = env.agent.action_manager.action_map
